@@ -87,6 +87,9 @@ type monBulk struct {
 }
 
 func (t *monBulk) Set(k, v []byte) {
+	if len(t.m.values) < 64 && bytes.HasPrefix(k, dbkey.Trie(nil)) && len(k) == triePrefix+trie.HashLength {
+		t.m.values = append(t.m.values, append([]byte{}, v...))
+	}
 	if old := t.m.DB.Get(k); len(old) != 0 && !bytes.Equal(old, v) {
 		t.m.bad = append(t.m.bad, "Bulk.Set changes existing pair "+hex.EncodeToString(k))
 	}
@@ -625,6 +628,27 @@ func (s *sess) reopen(i int) {
 // 0..8, around multiples of 4 (batch boundaries) and at the very bottom 248..255.
 func genUniverse(r *vh.Rng, n int) [][]byte {
 	base := r.Bytes(32)
+	// a third of the universes sit on the edge slots of the 4-level batches: nibble 0xF is the path 1111 (slot 30,
+	// the last slot serializeBatch writes and the last bitmap bit), nibble 0x0 the path 0000 (slot 15)
+	switch r.Intn(9) {
+	case 0:
+		for i := range base {
+			base[i] = 0xff
+		}
+	case 1:
+		for i := range base {
+			base[i] = 0
+		}
+	case 2:
+		for i := range base {
+			if r.Bool() {
+				base[i] |= 0xf0
+			}
+			if r.Bool() {
+				base[i] |= 0x0f
+			}
+		}
+	}
 	keys := [][]byte{base}
 	seen := map[string]bool{string(base): true}
 	for len(keys) < n {
@@ -738,6 +762,15 @@ func main() {
 		run.Count(fmt.Sprintf("exhaustive-geometry keys=%d seq=%d arity=%d", nk, seqLen, arity))
 	}
 
+	// ---- the trie through state/statedb, the way the node drives it (sdb.go)
+	for n := 0; n < run.Pick(40, 600); n++ {
+		if n%3 == 2 {
+			storageSession(run)
+		} else {
+			accountSession(run)
+		}
+	}
+
 	// ---- random sessions
 	for n := 0; n < run.Pick(150, 3000); n++ {
 		nk := 2 + rng.Intn(23)
@@ -847,6 +880,12 @@ func replay(run *vh.Run) {
 		lines = js.Input.Ops
 	} else {
 		lines = strings.Split(string(raw), "\n")
+	}
+	for _, l := range lines {
+		if strings.HasPrefix(l, "#sdb ") {
+			replaySdb(run, lines)
+			return
+		}
 	}
 	var s *sess
 	for _, l := range lines {
